@@ -38,6 +38,14 @@ func C17(c *core.Ctx) error {
 		"indented lines":            "// Licensed under the Apache License, Version 2.0 (the \"License\");\n// you may not use this file except in compliance with the License.\n//\n//     http://www.apache.org/licenses/LICENSE-2.0\n//\n//   - a list item\n// Unless required by applicable law.\n",
 		"indented lines no newline": "// Licensed under the Apache License, Version 2.0 (the \"License\");\n//\n//     http://www.apache.org/licenses/LICENSE-2.0\n//\n// Unless required by applicable law.",
 	}
+	{
+		// far beyond any buffer size a reader might assume (about 20 KiB, 300 distinct lines)
+		var b strings.Builder
+		for i := 0; i < 300; i++ {
+			fmt.Fprintf(&b, "// line %03d of a long licence text: %s\n", i, strings.TrimSpace(strings.Repeat("lorem ipsum ", 2+i%5)))
+		}
+		boiler["very long"] = b.String()
+	}
 	type cs struct {
 		expr, bname, tmpl, fmtr string
 		place                   string // "<level of mock-build-tags>/<level of boilerplate-file>", "" = both at top level
